@@ -940,7 +940,7 @@ func checkC15(c *Ctx, p *Prog, r *Result) {
 
 func init() {
 	checks["C16"] = checkC16
-	explanations["C16"] = "NARROW: exactly-once, in-order delivery of module streams across messages, fragmentation and goroutine schedules are properties of executions and Also decided: the devmod writer's budget (call-site reduction plus comparison constant cover the message wrapper, measured with KV.Size), no owner response carries IsDone with IsMoreServiceInfo (path-sensitive boolean evaluation), ReadChunk re-decodes its cached key whenever it replaces the cached raw key, and the yield target follows the last received message. NOT decided. Decided, dispatch gates only: (a) DeviceModule.Receive and DeviceModule.Yield are invoked by the dispatcher only on paths where the module was found active; (b) when an activation request names an unknown module, every non-error path of the activation handler encodes a reply (unknown modules answer rather than stay silent), and the reply value is forced to false for unknown modules other than devmod; (c) both module dispatchers treat an unread message body as an error after Receive / HandleInfo; (d) the device sends Done (type 70) only after the owner's last response carried IsDone; (e) on the owner IsDone derives from ModuleStateMachine.NextModule returning false, consulted only after ProduceInfo reported completion; (f) the devmod writer is given the very MTU value negotiated in DeviceServiceInfoReady that the exchange loop uses."
+	explanations["C16"] = "NARROW: exactly-once, in-order delivery of module streams across messages, fragmentation and goroutine schedules are properties of executions and NOT decided. Decided, dispatch gates only: (a) DeviceModule.Receive and DeviceModule.Yield are invoked by the dispatcher only on paths where the module was found active; (b) when an activation request names an unknown module, every non-error path of the activation handler encodes a reply (unknown modules answer rather than stay silent), and the reply value is forced to false for unknown modules other than devmod; (c) both module dispatchers treat an unread message body as an error after Receive / HandleInfo; (d) the device sends Done (type 70) only after the owner's last response carried IsDone; (e) on the owner IsDone derives from ModuleStateMachine.NextModule returning false, consulted only after ProduceInfo reported completion; (f) the devmod writer is given the very MTU value negotiated in DeviceServiceInfoReady that the exchange loop uses. Also decided: the devmod writer's budget (call-site reduction plus comparison constant cover the message wrapper, measured with KV.Size), no owner response carries IsDone with IsMoreServiceInfo (path-sensitive boolean evaluation), ReadChunk re-decodes its cached key whenever it replaces the cached raw key, and the yield target follows the last received message."
 }
 
 func checkC16(c *Ctx, p *Prog, r *Result) {
